@@ -156,7 +156,7 @@ const ruleC10 = "request sequences through the add-checkpoint handler (built as 
 
 var profC10 = vlib.Profile{
 	Prop: "C10", MinLogs: 1, MaxLogs: 3, MinOps: 2, MaxOps: 24,
-	Storages: []string{"mem", "sql"}, MaxJump: 300, OtherLogPct: 25, Decorate: 12, SharedKeys: true, MixOldPct: 20, NonCanonPct: 8,
+	Storages: []string{"mem", "sql"}, MaxJump: 300, OtherLogPct: 25, Decorate: 12, SharedKeys: true, MixOldPct: 20, NonCanonPct: 8, ECDSAPct: 20,
 	Weights: map[string]int{"grow": 30, "refresh": 8, "fork": 8, "wrongold": 10, "badproof": 10, "replay": 3, "garbage": 5, "unkroot": 2, "wrongkey": 6, "wrongorigin": 4, "unknownlog": 3, "smaller": 4, "decorated": 2, "mismatch": 6, "zero": 1},
 }
 
